@@ -8,6 +8,8 @@ the previous generated files are kept and the correspondence run alone ties mode
   cap_distance   : dotprod = [np.clip(]np.dot(xyz, x)[, lo, hi)];  cdist = np.degrees(np.arccos(1.0 - np.abs(cm)) -
                    np.arccos(dotprod));  if cm < 0: cdist *= -1.0
   is_in_cap      : return cap_distance(x, cm, points) >= 0.0
+  angles_to_x    : phi, theta (latitude and co-latitude branch), the three Cartesian components; and that
+                   cap_distance sends two-column input through angles_to_x(points, latitude=True)
   is_cap_used    : return (use_caps & 1 << i) != 0
   is_in_polygon  : usencaps = p['ncaps']; if ncaps > 0: usencaps = min(ncaps, p['ncaps']);  np.ones start value;
                    for icap in range(usencaps): if is_cap_used(p['use_caps'], icap): in_polygon &= is_in_cap(...)
@@ -163,6 +165,10 @@ def rexpr(node, env):
             return '(acos %s)' % rexpr(node.args[0], env)
         if is_np(f, 'abs', 'absolute', 'fabs') and len(node.args) == 1:
             return '(Rabs %s)' % rexpr(node.args[0], env)
+        if is_np(f, 'radians', 'deg2rad') and len(node.args) == 1:
+            return '(radians %s)' % rexpr(node.args[0], env)
+        if is_np(f, 'sin', 'cos') and len(node.args) == 1:
+            return '(%s %s)' % (f.attr, rexpr(node.args[0], env))
         if is_np(f, 'clip') and len(node.args) == 3:
             return '(clipR %s %s %s)' % (rexpr(node.args[1], env), rexpr(node.args[2], env), rexpr(node.args[0], env))
     raise U('real expression %s' % key[:60])
@@ -183,6 +189,12 @@ def x_cap_distance(fn):
         if isinstance(st, ast.Assign) and len(st.targets) == 1 and isinstance(st.targets[0], ast.Name):
             assigns[st.targets[0].id] = st.value
         elif isinstance(st, ast.If) and un(st.test).startswith('ncol'):
+            # if ncol == 2: xyz = angles_to_x(points, latitude=True) elif ncol == 3: xyz = points else: raise
+            if not (un(st.test) == 'ncol == 2' and len(st.body) == 1
+                    and un(st.body[0]) == 'xyz = angles_to_x(points, latitude=True)'
+                    and len(st.orelse) == 1 and isinstance(st.orelse[0], ast.If) and un(st.orelse[0].test) == 'ncol == 3'
+                    and len(st.orelse[0].body) == 1 and un(st.orelse[0].body[0]) == 'xyz = points'):
+                raise U('cap_distance: RA/Dec dispatch')
             continue
         elif isinstance(st, ast.If):
             if flip is not None or st.orelse or len(st.body) != 1:
@@ -211,6 +223,46 @@ def x_cap_distance(fn):
     return ['Definition gen_dotprod (d : R) : R := %s.' % dot,
             'Definition gen_cdist (cm d : R) : R := %s.' % cdist,
             'Definition gen_cap_distance (cm d : R) : R :=\n  if Rlt_dec %s %s then gen_cdist cm d * %s else gen_cdist cm d.' % (a, c, factor)]
+
+
+def x_angles_to_x(fn):
+    """phi, theta (both latitude branches), and the three components"""
+    b = body_of(fn)
+    env0 = {'points[:, 0]': 'a0', 'points[:, 1]': 'a1'}
+    out = {}
+    for st in b:
+        if isinstance(st, ast.Assign) and len(st.targets) == 1:
+            t = un(st.targets[0])
+            if isinstance(st.targets[0], ast.Tuple) or t == 'x':
+                continue
+            if t == 'phi':
+                out['phi'] = rexpr(st.value, env0)
+            elif t == 'st':
+                if un(st.value) != 'np.sin(theta)':
+                    raise U('angles_to_x: st')
+            elif t in ('x[:, 0]', 'x[:, 1]', 'x[:, 2]'):
+                out['x' + t[5]] = rexpr(st.value, {'phi': 'phi', 'theta': 'theta', 'st': '(sin theta)'})
+            else:
+                raise U('angles_to_x: assignment to %s' % t)
+        elif isinstance(st, ast.If) and un(st.test) == 'latitude':
+            if not (len(st.body) == 1 and len(st.orelse) == 1 and un(st.body[0].targets[0]) == 'theta'
+                    and un(st.orelse[0].targets[0]) == 'theta'):
+                raise U('angles_to_x: latitude branch')
+            out['theta_lat'] = rexpr(st.body[0].value, env0)
+            out['theta_colat'] = rexpr(st.orelse[0].value, env0)
+        elif isinstance(st, ast.Return):
+            if un(st.value) != 'x':
+                raise U('angles_to_x: return')
+        else:
+            raise U('angles_to_x: statement %s' % un(st)[:50])
+    if sorted(out) != ['phi', 'theta_colat', 'theta_lat', 'x0', 'x1', 'x2']:
+        raise U('angles_to_x: skeleton %s' % sorted(out))
+    return ['Definition gen_phi (a0 a1 : R) : R := %s.' % out['phi'],
+            'Definition gen_theta_lat (a0 a1 : R) : R := %s.' % out['theta_lat'],
+            'Definition gen_theta_colat (a0 a1 : R) : R := %s.' % out['theta_colat'],
+            'Definition gen_x0 (phi theta : R) : R := %s.' % out['x0'],
+            'Definition gen_x1 (phi theta : R) : R := %s.' % out['x1'],
+            'Definition gen_x2 (phi theta : R) : R := %s.' % out['x2']]
 
 
 def x_is_in_cap(fn):
@@ -466,7 +518,7 @@ From Coq Require Import Reals.
 From PV Require Import C12.RBase.
 Open Scope R_scope.
 
-(* d stands for np.dot(xyz, x); degrees, clipR: C12/RBase.v (meaning of np.degrees, np.clip) *)
+(* d stands for np.dot(xyz, x); degrees, radians, clipR: C12/RBase.v (meaning of np.degrees, np.radians, np.clip) *)
 '''
 
 
@@ -485,7 +537,9 @@ def generate(repo):
             z.append('(* %s *)' % title)
             z.extend(lines)
             z.append('')
-        r = ['(* cap_distance *)'] + x_cap_distance(f('cap_distance')) + ['', '(* is_in_cap *)'] + x_is_in_cap(f('is_in_cap'))
+        r = ['(* cap_distance *)'] + x_cap_distance(f('cap_distance')) + ['', '(* is_in_cap *)'] + x_is_in_cap(f('is_in_cap')) \
+            + ['', '(* angles_to_x (RA/Dec input: cap_distance calls it with latitude=True when points has two columns) *)'] \
+            + x_angles_to_x(f('angles_to_x'))
         info['lines'] = {'is_in_polygon': f('is_in_polygon').lineno, 'set_use_caps': f('set_use_caps').lineno,
                          'cap_distance': f('cap_distance').lineno}
     except (U, SyntaxError, OSError, KeyError) as e:
